@@ -14,7 +14,7 @@ mod frame;
 mod lexparse;
 mod ls;
 
-static LAST_PANIC: Mutex<Option<String>> = Mutex::new(None);
+pub static LAST_PANIC: Mutex<Option<String>> = Mutex::new(None);
 
 fn install_panic_hook() {
     std::panic::set_hook(Box::new(|info| {
